@@ -234,7 +234,18 @@ fn gen_history(rng: &mut Rng, w: i32, h: i32, len: usize) -> Vec<Unit> {
                 let prev = units[units.len() - 1].clone();
                 if let Unit::One(op) = prev {
                     let o2 = opts(random_mode(rng), random_alpha(rng), rng.chance(0.7));
+                    // ... or with nothing changed but the transform it is drawn under
+                    if op.is_draw() && rng.chance(0.25) {
+                        let t = if rng.chance(0.3) { Transform::translation(rng.int(-3, 3) as f32, rng.int(-3, 3) as f32 + 0.5) } else { random_transform(rng, w as f64, h as f64) };
+                        units.push(Unit::One(Op::SetTransform(t)));
+                        units.push(Unit::One(op));
+                        continue;
+                    }
                     let varied = match op {
+                        // the same source with one ingredient changed
+                        Op::Fill(p, s, o) if rng.chance(0.3) => Op::Fill(p, vary_source(rng, &s), o),
+                        Op::Stroke(p, s, st, o) if rng.chance(0.3) => Op::Stroke(p, vary_source(rng, &s), st, o),
+                        Op::FillRect(x, y, rw, rh, s, o) if rng.chance(0.3) => Op::FillRect(x, y, rw, rh, vary_source(rng, &s), o),
                         Op::Fill(p, s, o) => match rng.below(3) {
                             0 => Op::Fill(p, random_source(rng, w, h, 3), o),
                             1 => Op::Fill(follower(rng, w, h), s, o),
@@ -305,6 +316,9 @@ impl Shadow {
 }
 
 pub fn run_history(w: i32, h: i32, init: &[u32], units: &[Unit], st: &mut Stats, co: &mut CaseOut, steer: &mut Rng) {
+    // one history in eight replays every twin call in a fresh thread (not under Miri: thread start-up
+    // in the interpreter costs more than the calls)
+    let fresh_thread = !cfg!(miri) && steer.below(8) == 0;
     let mut real = DrawTarget::from_vec(w, h, init.to_vec());
     let mut shadow = Shadow { ctm: Transform::identity(), clips: Vec::new() };
     let mut queue: Vec<Unit> = Vec::new();
@@ -337,8 +351,27 @@ pub fn run_history(w: i32, h: i32, init: &[u32], units: &[Unit], st: &mut Stats,
             op.apply(&mut real);
         }
         if let Some(t) = twin.as_mut() {
-            for op in &ops {
-                op.apply(t);
+            if fresh_thread {
+                // the twin is built and used in a thread of its own: whatever the library remembers per
+                // thread (a cache keyed by less than the call's arguments) is empty there
+                let (sh, bf, os) = (&shadow, &before, &ops);
+                let px: Vec<u32> = std::thread::scope(|sc| {
+                    sc.spawn(move || {
+                        let mut t2 = sh.twin(w, h, bf);
+                        for op in os {
+                            op.apply(&mut t2);
+                        }
+                        t2.get_data().to_vec()
+                    })
+                    .join()
+                    .unwrap_or_else(|p| std::panic::resume_unwind(p))
+                });
+                t.get_data_mut().copy_from_slice(&px);
+                st.add("twin_calls_run_in_a_fresh_thread", 1);
+            } else {
+                for op in &ops {
+                    op.apply(t);
+                }
             }
             st.add("calls_compared_with_a_fresh_twin", 1);
             let a = real.get_data();
